@@ -126,3 +126,38 @@ pub proof fn lemma_view_push(es: Seq<LogRefEntry>, e: LogRefEntry)
 }
 
 } // verus!
+verus! {
+// ---- aspects of find's result, so that each property's obligation speaks only about what that property needs ----------------
+pub enum Aspect {
+    Where,      // C03/C05/C06/C11/C14(ignore): which statements yield an entry, where it sits, whether it lacks a usable reference
+    Kind,       // C13/C14(no-kvp): message branch vs structured existing vs structured new
+    RefString,  // C12: the reference read from a message literal
+    RefKv,      // C13.existing: the reference read from a `ref` key-value (None = unusable)
+    Affix,      // C13.new: `ref = ` and the `, ` / `; ` separator
+}
+pub open spec fn mask(e: EntryG, a: Aspect) -> EntryG {
+    let blank = EntryG { pos: 0, reference: None, kind: LogRefKind::Unknown, prefix: None, suffix: None };
+    match a {
+        Aspect::Where => EntryG { pos: e.pos, reference: if e.reference.is_none() && e.kind != LogRefKind::StructuredPreExisting { None } else { Some(0u32) }, ..blank },
+        Aspect::Kind => EntryG { kind: e.kind, ..blank },
+        Aspect::RefString => EntryG { reference: if e.kind == LogRefKind::String { e.reference } else { None }, ..blank },
+        Aspect::RefKv => EntryG { reference: if e.kind == LogRefKind::StructuredPreExisting { e.reference } else { None }, ..blank },
+        Aspect::Affix => EntryG { prefix: e.prefix, suffix: e.suffix, ..blank },
+    }
+}
+pub open spec fn mask_opt(o: Option<EntryG>, a: Aspect) -> Option<EntryG> { match o { Some(e) => Some(mask(e, a)), None => None } }
+pub open spec fn tree_asp(cs: Seq<PairG>, inp: Seq<u8>, cfg: Config, k: int, a: Aspect) -> Seq<EntryG>
+    decreases k
+{
+    if k <= 0 { Seq::empty() } else {
+        let prev = tree_asp(cs, inp, cfg, k - 1, a);
+        match mask_opt(node_entry(cs[k - 1], inp, cfg), a) { Some(e) => prev.push(e), None => prev }
+    }
+}
+pub open spec fn view_asp(es: Seq<LogRefEntry>, a: Aspect) -> Seq<EntryG> { Seq::new(es.len(), |i: int| mask(view_entry(es[i]), a)) }
+pub proof fn lemma_asp_push(es: Seq<LogRefEntry>, e: LogRefEntry, a: Aspect)
+    ensures view_asp(es.push(e), a) == view_asp(es, a).push(mask(view_entry(e), a))
+{
+    assert(view_asp(es.push(e), a) =~= view_asp(es, a).push(mask(view_entry(e), a)));
+}
+}
